@@ -106,7 +106,10 @@ class Worker:
         except (BrokenPipeError, OSError):
             self.kill()
             return {"id": job.get("id"), "status": "error", "error": "worker died before job\n" + self.logtail()}
+        t0 = time.monotonic()
         res = self._readline(timeout + 15)
+        if isinstance(res, dict):
+            res["_wall"] = round(time.monotonic() - t0, 2)
         if res is None:
             tail = self.logtail()
             self.kill()
@@ -510,6 +513,8 @@ def run_check(prop, tier, seed, workers, replay=None, budget=None, extra=None):
         with open(os.path.join(ROOT, "evidence", prop + ".json"), "w") as f:
             json.dump(ev, f, indent=1, sort_keys=True)
 
+        slow = sorted(((r.get("_wall", 0), j) for j, r in executed), key=lambda x: -x[0])[:3]
+        print("slowest sessions: " + "; ".join("%.0fs %s" % (w, {k: v for k, v in j.items() if k in ("seed", "kind", "klass", "method", "unit")}) for w, j in slow))
         print(
             "[%s %s] sessions=%d executed=%d skipped(budget)=%d distinct=%d wall=%.0fs"
             % (prop, tier, len(jobs), len(executed), skipped, ev["coverage"]["distinct_nontrivial"], time.monotonic() - t_start)
